@@ -80,7 +80,12 @@ class BaseExtractor:
                 ],
                 [],
             )
-        if segment.type in ["select_clause", "from_clause", "where_clause"]:
+        if segment.type in [
+            "select_clause",
+            "from_clause",
+            "where_clause",
+            "having_clause",
+        ]:
             result = cls._parse_subquery(list_subqueries(segment))
         elif is_subquery(segment):
             # Parenthesis for SubQuery without alias, this is valid syntax for certain SQL dialect
